@@ -7,7 +7,10 @@ def key() -> bytes:
     """
     Generate a private key
     """
-    return secrets.randbelow(bits.ecmath.SECP256K1_N).to_bytes(32, "big")
+    k = secrets.randbelow(bits.ecmath.SECP256K1_N)
+    while not k:
+        k = secrets.randbelow(bits.ecmath.SECP256K1_N)
+    return k.to_bytes(32, "big")
 
 
 def pub(privkey: bytes, compressed: bool = False) -> bytes:
